@@ -355,8 +355,14 @@ def describe(fn):
             t = _n(n)
             if len(t) < 200:
                 calls[t] = calls.get(t, 0) + 1
+    stores = sorted({_n(t) for n in _own_nodes(fn)
+                     if isinstance(n, (ast.Assign, ast.AugAssign))
+                     for t in (n.targets if isinstance(n, ast.Assign)
+                               else [n.target])
+                     if isinstance(t, (ast.Subscript, ast.Attribute))})
     return {'params': params, 'locals': locs, 'defs': _defs_of(fn),
-            'tests': tests, 'loops': loops, 'calls': calls}
+            'tests': tests, 'loops': loops, 'calls': calls,
+            'stores': stores}
 
 
 def build_reference(repo_root):
@@ -1496,6 +1502,42 @@ def _live_range(fn, name):
     return (min(lines), max(lines)) if lines else (0, 0)
 
 
+def _explode_dict_displays(fn, rf, log, q):
+    """T = {'a': x, 'b': y}  ->  T = {}; T['a'] = x; T['b'] = y   where the
+    reference stores T['a'], T['b'] key by key."""
+    rstores = set(rf.get('stores', []))
+    if not rstores:
+        return
+    for blk in _blocks(fn):
+        i = 0
+        while i < len(blk):
+            st = blk[i]
+            if isinstance(st, ast.Assign) and len(st.targets) == 1 and \
+                    isinstance(st.value, ast.Dict) and st.value.keys and all(
+                        isinstance(k, ast.Constant) and isinstance(
+                            k.value, str) for k in st.value.keys):
+                tt = _n(st.targets[0])
+                keyed = ["%s['%s']" % (tt, k.value) for k in st.value.keys]
+                if all(k_ in rstores for k_ in keyed):
+                    new = [ast.Assign(targets=st.targets,
+                                      value=ast.Dict(keys=[], values=[]))]
+                    for k, v in zip(st.value.keys, st.value.values):
+                        base = copy.deepcopy(st.targets[0])
+                        base.ctx = ast.Load()
+                        new.append(ast.Assign(targets=[ast.Subscript(
+                            value=base, slice=k, ctx=ast.Store())], value=v))
+                    for n_ in new:
+                        for x in ast.walk(n_):
+                            ast.copy_location(x, st)
+                    blk[i:i + 1] = new
+                    log.append('%s: dict display for %s restored to keyed '
+                               'stores' % (q, tt))
+                    i += len(new)
+                    continue
+            i += 1
+    ast.fix_missing_locations(fn)
+
+
 def _dictcomps_to_loops(fn, rf, log, q):
     """T = {k: v for i, k in enumerate(S)}  ->  T = {}; for i in
     range(len(S)): T[S[i]] = v   where the reference has that loop."""
@@ -2214,6 +2256,7 @@ def canonicalise(tree, modname, text=None):
         _merge_accumulators(fn, rf, log, q)
         _merge_forwarded_locals(fn, rf, log, q)
         _dissolve_built_locals(fn, rf, log, q)
+        _explode_dict_displays(fn, rf, log, q)
         _inline_indexed_comprehensions(fn, rf, log, q)
         _temps_and_names(fn, rf, log, q)
         _rehoist(fn, rf, log, q)
